@@ -28,6 +28,8 @@ type vkEvent struct {
 
 type vkRecorder struct {
 	events []vkEvent
+	// onInSync, when set, runs at the instant the in-sync notification is delivered
+	onInSync func()
 }
 
 func (r *vkRecorder) HandleTx(ctx context.Context, tx *client.Tx) {
@@ -47,6 +49,9 @@ func (r *vkRecorder) HandleHeaders(ctx context.Context, hs *client.Headers) {
 
 func (r *vkRecorder) HandleInSync(ctx context.Context) {
 	r.events = append(r.events, vkEvent{kind: "insync", at: len(r.events)})
+	if r.onInSync != nil {
+		r.onInSync()
+	}
 }
 
 func (r *vkRecorder) HandleMessage(ctx context.Context, p client.MessagePayload) {
